@@ -351,7 +351,9 @@ class OpenDocument:
         if self.fontfacedecls.hasChildNodes():
             self.fontfacedecls.toXml(1, xml)
         a = AutomaticStyles()
-        stylelist = self._used_auto_styles([self.styles, self.automaticstyles, self.body])
+        # (references made by automatic styles count once those styles are
+        # themselves used: _used_auto_styles follows them)
+        stylelist = self._used_auto_styles([self.styles, self.body])
         if len(stylelist) > 0:
             a.write_open_tag(1, xml)
             for s in stylelist:
